@@ -70,6 +70,11 @@ func leanNatList(xs []uint16) string {
 	return "[" + strings.Join(s, ", ") + "]"
 }
 
+type kv struct {
+	k string
+	v uint16
+}
+
 func init() {
 	register("C06", func(repo string, o *Out) error {
 		f, err := Parse(filepath.Join(repo, "caskettls/config.go"))
@@ -97,10 +102,6 @@ func init() {
 		if !ok {
 			return fmt.Errorf("SupportedProtocols: not a composite literal")
 		}
-		type kv struct {
-			k string
-			v uint16
-		}
 		var kvs []kv
 		for _, el := range cl.Elts {
 			p, ok := el.(*ast.KeyValueExpr)
@@ -123,6 +124,73 @@ func init() {
 			parts[i] = fmt.Sprintf("(%s, %d)", LeanString(p.k), p.v)
 		}
 		fmt.Fprintf(b, "/-- `SupportedProtocols` in caskettls/config.go, sorted by name -/\ndef supportedProtocols : List (String × Nat) := [%s]\n\n", strings.Join(parts, ", "))
+		// SupportedCiphersMap and supportedCurvesMap: name -> wire number, sorted by name
+		for _, tbl := range [][2]string{{"SupportedCiphersMap", "supportedCiphers"}, {"supportedCurvesMap", "supportedCurves"}} {
+			e, err := f.VarValue(tbl[0])
+			if err != nil {
+				return err
+			}
+			cl, ok := e.(*ast.CompositeLit)
+			if !ok {
+				return fmt.Errorf("%s: not a composite literal", tbl[0])
+			}
+			var kvs []kv
+			for _, el := range cl.Elts {
+				p, ok := el.(*ast.KeyValueExpr)
+				if !ok {
+					return fmt.Errorf("%s: unexpected element", tbl[0])
+				}
+				k, ok := StringLit(p.Key)
+				if !ok {
+					return fmt.Errorf("%s: non-literal key", tbl[0])
+				}
+				v, err := tlsIdent(p.Value)
+				if err != nil {
+					return fmt.Errorf("%s: %v", tbl[0], err)
+				}
+				kvs = append(kvs, kv{k, v})
+			}
+			sort.Slice(kvs, func(i, j int) bool { return kvs[i].k < kvs[j].k })
+			parts := make([]string, len(kvs))
+			for i, p := range kvs {
+				parts[i] = fmt.Sprintf("(%s, %d)", LeanString(p.k), p.v)
+			}
+			fmt.Fprintf(b, "/-- `%s` in caskettls/config.go, sorted by name -/\ndef %s : List (String × Nat) := [%s]\n\n", tbl[0], tbl[1], strings.Join(parts, ", "))
+		}
+		// the ClientAuth modes the `clients` subdirective assigns, in source order (caskettls/setup.go)
+		sf, err := Parse(filepath.Join(repo, "caskettls/setup.go"))
+		if err != nil {
+			return err
+		}
+		st, err := sf.Func("", "setupTLS")
+		if err != nil {
+			return err
+		}
+		var modes []string
+		ast.Inspect(st, func(n ast.Node) bool {
+			as, ok := n.(*ast.AssignStmt)
+			if !ok || len(as.Lhs) != 1 || len(as.Rhs) != 1 {
+				return true
+			}
+			if se, ok := as.Lhs[0].(*ast.SelectorExpr); ok && se.Sel.Name == "ClientAuth" {
+				if r, ok := as.Rhs[0].(*ast.SelectorExpr); ok {
+					modes = append(modes, r.Sel.Name)
+				}
+			}
+			return true
+		})
+		authNum := map[string]int{"NoClientCert": int(tls.NoClientCert), "RequestClientCert": int(tls.RequestClientCert),
+			"RequireAnyClientCert": int(tls.RequireAnyClientCert), "VerifyClientCertIfGiven": int(tls.VerifyClientCertIfGiven),
+			"RequireAndVerifyClientCert": int(tls.RequireAndVerifyClientCert)}
+		nums := make([]string, len(modes))
+		for i, m := range modes {
+			v, ok := authNum[m]
+			if !ok {
+				return fmt.Errorf("setupTLS: unknown ClientAuth mode %s", m)
+			}
+			nums[i] = fmt.Sprint(v)
+		}
+		fmt.Fprintf(b, "/-- the tls.ClientAuthType values `setupTLS` assigns for `clients request | require | verify_if_given | <files>`, in source order -/\ndef clientAuthModes : List Nat := [%s]\n\n", strings.Join(nums, ", "))
 		// SetDefaultTLSParams: the values assigned to ProtocolMinVersion / ProtocolMaxVersion, and the prepended cipher
 		fn, err := f.Func("", "SetDefaultTLSParams")
 		if err != nil {
